@@ -18,7 +18,7 @@ Definition Held (LF : log) (b : nat) (c : nat) : Prop :=
 
 (* what a completed find guarantees (C10_result_sound) *)
 Definition frec_ok (LF : log) (f : frec) : Prop :=
-  (forall l, (f_view f l <= f_len f)%nat) /\
+  f_key f < K64 /\ (forall l, (f_view f l <= f_len f)%nat) /\
   match f_res f with
   | None => True
   | Some (e, ix) =>
@@ -62,7 +62,7 @@ Lemma RInv_goto LF (Lc : log) r V b pc : (1 <= b)%nat -> (forall l, (b <= V l)%n
   Forall item_ok (r_todo r) -> pc_ok LF b pc -> Forall (frec_ok LF) (r_done r) -> RInv LF Lc (goto r V b pc).
 Proof. intros. constructor; cbn [goto r_base r_view r_todo r_pc r_done]; assumption. Qed.
 
-Lemma RInv_finish LF (Lc : log) r V b k res mj clk len : (1 <= b)%nat -> (forall l, (b <= V l)%nat /\ (V l <= length Lc)%nat) ->
+Lemma RInv_finish LF (Lc : log) r V b k res mj clk len : k < K64 -> (1 <= b)%nat -> (forall l, (b <= V l)%nat /\ (V l <= length Lc)%nat) ->
   Forall item_ok (r_todo r) -> Forall (frec_ok LF) (r_done r) -> len = length Lc ->
   match res with
   | None => True
@@ -75,8 +75,8 @@ Lemma RInv_finish LF (Lc : log) r V b k res mj clk len : (1 <= b)%nat -> (forall
           (tc < V (LSlot e ix))%nat /\ ((tc < tm)%nat \/ tc = S tm)
   end -> RInv LF Lc (finish r V b k res mj clk len).
 Proof.
-  intros Hb HV Ht Hd -> Hres. constructor; cbn [finish r_base r_view r_todo r_pc r_done]; try assumption; [exact Logic.I|].
-  constructor; [|assumption]. split; [cbn [f_view f_len]; intros l; apply HV|]. exact Hres.
+  intros Hk Hb HV Ht Hd -> Hres. constructor; cbn [finish r_base r_view r_todo r_pc r_done]; try assumption; [exact Logic.I|].
+  constructor; [|assumption]. split; [exact Hk|]. split; [cbn [f_view f_len]; intros l; apply HV|]. exact Hres.
 Qed.
 
 Section Reader.
@@ -215,7 +215,7 @@ Section Reader.
         * apply RInv_goto; cbn [r_todo r_done]; [lia|exact HV'|exact Ht| |exact Hdone].
           cbn [pc_ok]. split; [exact Hk|]. exists j, m. split; [exact GF|]. split; [unfold ptr_target; rewrite El, Ev; reflexivity|].
           unfold new_base. rewrite A1, (Hrel c eq_refl). cbn [andb]. lia.
-        * apply RInv_finish; cbn [r_todo r_done]; [lia|exact HV'|exact Ht|exact Hdone|reflexivity|]. exact Logic.I.
+        * apply RInv_finish; cbn [r_todo r_done]; [exact Hk|lia|exact HV'|exact Ht|exact Hdone|reflexivity|]. exact Logic.I.
       + (* external synchronisation *)
         inversion Htodo as [|? ? _ Ht]; subst.
         constructor; cbn [r_base r_view r_todo r_pc r_done];
@@ -228,7 +228,7 @@ Section Reader.
       pose proof (node_ok_depth _ Okn) as Hd.
       rewrite pfx_of_ok by (try exact Hk; lia).
       destruct (negb (pfxP k (n_depth nd) =? n_prefix nd)) eqn:Epx.
-      + apply RInv_finish; [exact Hb|exact HV|exact Htodo|exact Hdone|reflexivity|]. exact Logic.I.
+      + apply RInv_finish; [exact Hk|exact Hb|exact HV|exact Htodo|exact Hdone|reflexivity|]. exact Logic.I.
       + apply negb_false_iff, N.eqb_eq in Epx. rewrite idx_of_ok by exact Hd.
         apply RInv_goto; [exact Hb|exact HV|exact Htodo| |exact Hdone].
         destruct (n_depth nd =? ll) eqn:Ed; cbn [pc_ok].
@@ -244,7 +244,7 @@ Section Reader.
       destruct (mval m) as [|mv|] eqn:Ev; try contradiction.
       pose proof (view_after Lc (r_view r) (r_base r) (is_acq (o_f_mask o)) (LMask c) j m HV Hj) as HV'.
       pose proof (new_base_ge (is_acq (o_f_mask o)) (r_base r) j m) as Hbge.
-      apply RInv_finish; [lia|exact HV'|exact Htodo|exact Hdone|reflexivity|].
+      apply RInv_finish; [exact Hk|lia|exact HV'|exact Htodo|exact Hdone|reflexivity|].
       destruct (N.testbit mv ix) eqn:B; [|exact Logic.I].
       split; [exact Lp|]. split; [exact Ld|]. split; [exact Eix|].
       exists j, m, mv. split; [reflexivity|]. split; [exact GF|]. split; [exact El|]. split; [exact Ev|]. split; [exact B|].
@@ -281,7 +281,7 @@ Section Reader.
       + apply RInv_goto; [lia|exact HV'|exact Htodo| |exact Hdone].
         cbn [pc_ok]. split; [exact Hk|]. exists j, m. split; [exact GF|]. split; [unfold ptr_target; rewrite El, Ev; reflexivity|].
         unfold new_base. rewrite A3. cbn [andb]. destruct (mrel m) eqn:Er; [lia|exact (Hnr eq_refl)].
-      + apply RInv_finish; [lia|exact HV'|exact Htodo|exact Hdone|reflexivity|]. exact Logic.I.
+      + apply RInv_finish; [exact Hk|lia|exact HV'|exact Htodo|exact Hdone|reflexivity|]. exact Logic.I.
     - contradiction.
   Qed.
 End Reader.
